@@ -54,6 +54,8 @@ _OPS = [
     ('subset(exclude last var)', lambda f: len(f.variables) >= 2, lambda P, f: f.subsetVariables([list(f.variables)[-1]], exclude=True)),
     ('renameVariable(last->NEWV)', lambda f: len(f.variables) >= 1 and 'NEWV' not in f.variables,
      lambda P, f: f.renameVariable(list(f.variables)[-1], 'NEWV')),
+    ('renameVariable(last->its own name)', lambda f: len(f.variables) >= 1,
+     lambda P, f: f.renameVariable(list(f.variables)[-1], list(f.variables)[-1])),
     ('renameVariables(first->V0)', lambda f: len(f.variables) >= 1 and 'V0' not in f.variables and list(f.variables)[0] not in f.dimensions,
      lambda P, f: f.renameVariables(**{list(f.variables)[0]: 'V0'})),
     ('renameDimension(last->NEWD)', lambda f: 'NEWD' not in f.dimensions, lambda P, f: f.renameDimension(last_dim(f), 'NEWD')),
